@@ -144,6 +144,19 @@ def run(ctx):
         fails.append("DURATION:PT2S and an X-ECHS-IFILE FIFO nobody writes to: %s" % (
             "echsx does not come back" if "TIMEOUT" in out else "the time limit's signal hit a process of echsx's group that is not the task (as echsd would be); echsx ended with %s" % p.returncode))
     subprocess.run(["rm", "-rf", base2])
+    # ---- (d) a limit given as DTEND in a Hijri scale: the span is so many days, whatever calendar the dates are written in
+    hops, hwant = [], []
+    for a, b, ms in (("14490129T120000", "14490201T120000", 86400000), ("14490229T120000", "14490301T120000", 86400000),
+                     ("14490105T120000", "14490105T120500", 300000), ("14410201T000000", "14410301T000000", 29 * 86400000)):
+        sc = "HIJRI.UMMULQURA" if a.startswith("1449") else "HIJRI.IIA"
+        cal = "BEGIN:VCALENDAR\nBEGIN:VEVENT\nUID:h\nSUMMARY:x\nDTSTART;SCALE=%s:%s\nDTEND;SCALE=%s:%s\nEND:VEVENT\nEND:VCALENDAR\n" % (sc, a, sc, b)
+        hops.append("p.occ %s 1" % cal.encode().hex()); hwant.append((a, b, sc, ms))
+    hout, _, _ = ctx.impl(exs, hops)
+    for k, (a, b, sc, ms) in enumerate(hwant):
+        m_ = re.search(r"occ=[0-9a-f]{16}\+(-?\d+)", hout[k] if k < len(hout) else "")
+        obs.append("DTSTART;SCALE=%s:%s DTEND:%s -> limit %s ms" % (sc, a, b, m_.group(1) if m_ else "?"))
+        if not m_ or int(m_.group(1)) != ms:
+            fails.append("DTSTART;SCALE=%s:%s with DTEND;SCALE=%s:%s: the limit is %s ms, the dates are %d ms apart" % (sc, a, sc, b, m_.group(1) if m_ else (hout[k][:80] if k < len(hout) else "?"), ms))
     ctx.cov["executor_runs"] = obs
     ctx.cov["evaluations"] = ctx.cov.get("evaluations", 0) + len(plan)
     if fails and not any(v["found"] for v in ctx.violations):
